@@ -69,8 +69,16 @@ let parse_dump (s : string) : (int, int) tree =
   end
 
 let mutating = function
-  | "I" | "E1" | "EK" | "EI" | "CL" | "AS" | "CC" | "SW" | "B" -> true
+  | "I" | "E1" | "EK" | "EI" | "CL" | "AS" | "CC" | "SW" | "B" | "IR" | "CR" -> true
   | _ -> false
+
+(* overload variants exercised by the harness (const lookups, insert with hint, insert2, operator[],
+   std::swap) have the semantics of the base operation *)
+let base_name = function
+  | "Fc" -> "F" | "Lc" -> "L" | "Uc" -> "U" | "Rc" -> "R"
+  | "Ih" | "I2" | "Ih2" | "Ib" -> "I"
+  | "SWs" -> "SW"
+  | n -> n
 
 let run_case (cfgs : string) (toks : string list) (impl_dumps : string list option) : string =
   let c = parse_cfg cfgs in
@@ -102,7 +110,7 @@ let run_case (cfgs : string) (toks : string list) (impl_dumps : string list opti
     List.concat (List.map (fun run -> List.stable_sort (fun p q -> compare (snd p) (snd q)) run) (runs [] [] l)) in
   List.iteri (fun idx tok ->
     let parts = split ',' tok in
-    let name = List.hd parts in
+    let name = base_name (List.hd parts) in
     let f = Array.of_list (List.map int_of_string (List.tl parts)) in
     let i = f.(0) in
     let cur () = get !st (n_ i) in
@@ -134,9 +142,24 @@ let run_case (cfgs : string) (toks : string list) (impl_dumps : string list opti
       | "B" ->
         let rec pairs k = if k + 1 < Array.length f then (f.(k), if ismap then f.(k + 1) else 0) :: pairs (k + 2) else [] in
         Some (OBulk (n_ i, pairs 2))
+      | "IR" | "CR" -> None
       | _ -> failwith ("bad op " ^ tok) in
     if idx > 0 then Buffer.add_char b ' ';
+    let seq_ops : (int, int * int) op list option =
+      let rec pairs k = if k + 1 < Array.length f then (f.(k), if ismap then f.(k + 1) else 0) :: pairs (k + 2) else [] in
+      match name with
+      | "IR" -> Some (List.map (fun v -> OInsert (n_ i, v)) (pairs 2))       (* insert(first, last) *)
+      | "CR" -> Some (OClear (n_ i) :: List.map (fun v -> OInsert (n_ i, v)) (pairs 3))   (* ~X(); X(first, last, ...) *)
+      | _ -> None in
     let (res, al, fr) =
+      match seq_ops with
+      | Some os ->
+        List.fold_left (fun (r, a, fr) o ->
+          let s = stepf !st o in
+          st := s.s_state;
+          if s.s_bad then Buffer.add_string notes (Printf.sprintf " MODEL-BAD@%d" idx);
+          (r, a + int_of_nat s.s_allocs, fr + int_of_nat s.s_frees)) ("-", 0, 0) os
+      | None ->
       match mop with
       | None -> ("D-", 0, 0)
       | Some o ->
